@@ -14,12 +14,15 @@ import (
 	"bytes"
 	"fmt"
 	"strings"
+	"time"
 
 	"go.nanomsg.org/mangos/v3"
 	"go.nanomsg.org/mangos/v3/protocol/bus"
 	"go.nanomsg.org/mangos/v3/protocol/pub"
 	"go.nanomsg.org/mangos/v3/protocol/push"
+	"go.nanomsg.org/mangos/v3/protocol/rep"
 	"go.nanomsg.org/mangos/v3/protocol/req"
+	"go.nanomsg.org/mangos/v3/protocol/respondent"
 	"go.nanomsg.org/mangos/v3/protocol/surveyor"
 	"go.nanomsg.org/mangos/v3/protocol/xpub"
 	_ "go.nanomsg.org/mangos/v3/transport/inproc"
@@ -62,6 +65,12 @@ func reg(prop string, names ...string) {
 }
 
 func init() {
+	for _, prop := range []string{"C05", "C10"} {
+		vexplore.Register(prop, func(tier string) []*vexplore.Scenario {
+			return []*vexplore.Scenario{{Name: "inproc-requester-leaves-with-requests-pipelined", Mode: "enum", Reset: kit.ResetGlobals, Body: departedRequester,
+				NeedCounters: []string{"reply-to-a-departed-requester-discarded"}}}
+		})
+	}
 	reg("C17", "pub", "xpub", "surveyor", "bus", "push", "req")
 	reg("C06", "pub", "xpub")
 	reg("C07", "surveyor")
@@ -232,6 +241,108 @@ func run(h hubKind) {
 	})
 	kit.Quiesce()
 	_ = bytes.Equal
+}
+
+// departedRequester: a client (manual peer over the real inproc transport) has pipelined more
+// requests than the REP / RESPONDENT server has calls in Recv - the server's connection reader is
+// parked with the surplus request in its hand - and then goes away.  Replies to the departed client
+// are discarded: every Send of the server returns at once (no deadline is set: a Send that waits
+// would wait for ever), the server goes on serving a new client, and after everything is closed
+// nothing is left behind (no thread stuck in the transport, no connection listed).
+func departedRequester() {
+	surv := kit.ChooseFree(2) == 1
+	nw := 1 + kit.ChooseFree(3) // workers (contexts) that hold a request of the client when it leaves
+	var srv mangos.Socket
+	var err error
+	mk := mpeer.Req
+	name := "rep"
+	if surv {
+		srv, err = respondent.NewSocket()
+		mk = mpeer.Surveyor
+		name = "respondent"
+	} else {
+		srv, err = rep.NewSocket()
+	}
+	must(err, "NewSocket")
+	addr := "inproc://cblk-dep-" + name
+	must(srv.Listen(addr), "Listen")
+	cli := mk()
+	must(cli.S.Dial(addr), "Dial")
+	kit.Quiesce()
+	var ctxs []mangos.Context
+	var recvs []*kit.Call
+	for i := 0; i < nw; i++ {
+		c, err := srv.OpenContext()
+		must(err, "OpenContext")
+		ctxs = append(ctxs, c)
+		recvs = append(recvs, kit.Start(fmt.Sprintf("Recv-w%d", i), func() (interface{}, error) { b, err := c.Recv(); return string(b), err }))
+	}
+	kit.Quiesce()
+	put := func(p *mpeer.Peer, i int) *kit.Call {
+		c := kit.Start(fmt.Sprintf("Put-%d", i), func() (interface{}, error) {
+			return nil, p.Put(0, []byte{0x80, 0, 0, byte(i)}, []byte(fmt.Sprintf("q%d", i)))
+		})
+		kit.Quiesce()
+		return c
+	}
+	// one request per worker, one more that the connection's reader holds (nobody is in Recv), one
+	// more that waits in the transport
+	for i := 1; i <= nw+2; i++ {
+		put(cli, i)
+	}
+	for i, r := range recvs {
+		if !r.Done() || r.Err != nil {
+			kit.Failf("setup", "%s: worker %d did not get a request: done=%v %s", name, i, r.Done(), kit.ErrName(r.Err))
+		}
+	}
+	kit.Must("Close:client", func() { _ = cli.S.Close() })
+	kit.Quiesce()
+	for i, c := range ctxs {
+		c := c
+		sc := kit.Start(fmt.Sprintf("Send-w%d", i), func() (interface{}, error) { return nil, c.Send([]byte("answer")) })
+		kit.Quiesce()
+		if !sc.Done() {
+			kit.Failf("reply-to-departed-requester-blocks", "%s: the client has gone while %d worker(s) held a request of it and more were pipelined; worker %d's Send of its reply blocks instead of being discarded", name, nw, i)
+		}
+	}
+	kit.Count("reply-to-a-departed-requester-discarded")
+	// the server goes on serving: a new client, through the first worker
+	cl2 := mk()
+	must(cl2.S.Dial(addr), "Dial")
+	kit.Quiesce()
+	var rc *kit.Call
+	for i := 0; i < 3; i++ {
+		// (the request the reader had in its hand may still turn up first; its answer is discarded too)
+		rc = kit.Start("Recv-again", func() (interface{}, error) { b, err := ctxs[0].Recv(); return string(b), err })
+		kit.Quiesce()
+		if !rc.Done() {
+			break
+		}
+		sc := kit.Start("Send-late", func() (interface{}, error) { return nil, ctxs[0].Send([]byte("late")) })
+		kit.Quiesce()
+		if !sc.Done() {
+			kit.Failf("reply-to-departed-requester-blocks", "%s: reply to a request that was still in the reader's hand when the client left blocks", name)
+		}
+	}
+	put(cl2, 9)
+	if !rc.Done() || rc.Err != nil || rc.Val.(string) != "q9" {
+		kit.Failf("server-stopped-serving", "%s: after a client left with requests pipelined, a new client's request: Recv done=%v %s %q", name, rc.Done(), kit.ErrName(rc.Err), rc.Val)
+	}
+	sc := kit.Start("Send-a9", func() (interface{}, error) { return nil, ctxs[0].Send([]byte("a9")) })
+	kit.Quiesce()
+	tk := kit.Start("Take", func() (interface{}, error) { h, b, err := cl2.Take(0); return string(append(h, b...)), err })
+	kit.Quiesce()
+	if !sc.Done() || sc.Err != nil || !tk.Done() || tk.Err != nil || tk.Val.(string) != "\x80\x00\x00\x09a9" {
+		kit.Failf("server-stopped-serving", "%s: the new client's answer: Send done=%v %s, client got done=%v %s %q", name, sc.Done(), kit.ErrName(sc.Err), tk.Done(), kit.ErrName(tk.Err), tk.Val)
+	}
+	kit.Must("Close", func() { _ = cl2.S.Close(); _ = srv.Close() })
+	kit.Quiesce()
+	kit.Sleep(time.Hour)
+	kit.Quiesce()
+	if bad := kit.Census(); bad != "" {
+		kit.Failf("leak:after-departed-requester", "%s: after all sockets were closed this remains: %s", name, bad)
+	}
+	kit.Observe("%s workers=%d", name, nw)
 }
 
 func count(l []string, s string) int {
